@@ -11,8 +11,7 @@ type In struct {
 	HTML   string `json:"html"`
 	User   string `json:"user,omitempty"` // user-origin style sheet
 	Engine string `json:"engine,omitempty"`
-	Kind   string `json:"kind"`           // "ow-table" | "pair-table" | "random"
-	Skip   string `json:"skip,omitempty"` // table entry kept out of the verdict: name of the finding in findings/C12
+	Kind   string `json:"kind"` // "ow-table" | "pair-table" | "random"
 
 	Rules     []Rule `json:"rules"`                // every @page rule, author sheet first (in order), then user sheet
 	RootBreak string `json:"root_break,omitempty"` // break-before of the root element: "", left, right, recto, verso
